@@ -45,7 +45,22 @@ async fn one_config(a: Args, idx: usize, proto: Proto, transport: Transport) -> 
     let d = Deploy::new(cfg, transport, false, workers, &dir);
     let tag = format!("c01-{idx}");
     let dd = d.clone();
-    let pair = match tokio::task::spawn_blocking(move || start_pair(&dd, &tag)).await.unwrap() {
+    // half of the stream-transport configurations run through a forwarder that re-segments the client-server link
+    // (7 / 64 / 1000 bytes per segment, changing while flows run): read boundaries fall everywhere in the wire format
+    let chopper = if transport != Transport::Quic && rng.chance(1, 2) { super::chopper::start(d.server_port).await.ok() } else { None };
+    let link = chopper.as_ref().map(|c| c.port);
+    if let Some(c) = &chopper {
+        c.segment.store(*rng.pick(&[7u64, 64, 1000]), std::sync::atomic::Ordering::SeqCst);
+        // Shadowsocks 2022 itself demands salt + fixed header (at most 32+16+27 / 32+59 bytes) in the first read: not split
+        c.whole_prefix.store(128, std::sync::atomic::Ordering::SeqCst);
+    }
+    let pair = match tokio::task::spawn_blocking(move || match link {
+        Some(p) => start_pair_via(&dd, &tag, p),
+        None => start_pair(&dd, &tag),
+    })
+    .await
+    .unwrap()
+    {
         Ok(p) => p,
         Err(e) => {
             rep.violation(format!("C01|{}|{}|nodes-do-not-start", proto.name(), transport.name()), format!("client/server pair does not come up: {}", e.lines().next().unwrap_or("")), json!({"deploy": d.describe(), "error": e}));
@@ -76,6 +91,10 @@ async fn one_config(a: Args, idx: usize, proto: Proto, transport: Transport) -> 
     // first one flow at a time, then the rest 8 at a time
     let (solo, rest) = specs.split_at(specs.len().min(4));
     let mut results = run_batch(reg.clone(), &d, target.port, solo.to_vec(), 1, Duration::from_secs(25)).await;
+    if let Some(c) = &chopper {
+        c.segment.store(*rng.pick(&[7u64, 64, 1000, 0]), std::sync::atomic::Ordering::SeqCst);
+        rep.mon("configurations_with_resegmented_link", 1);
+    }
     results.extend(run_batch(reg.clone(), &d, target.port, rest.to_vec(), 8, Duration::from_secs(40)).await);
     // an extra concurrent burst on some configurations (C09 at node level)
     if idx % 4 == 0 {
@@ -129,6 +148,7 @@ async fn one_config(a: Args, idx: usize, proto: Proto, transport: Transport) -> 
     }
     drop(target);
     drop(pair);
+    drop(chopper);
     let _ = std::fs::remove_dir_all(&dir);
     rep
 }
